@@ -62,6 +62,42 @@ class Ctx:
 # ----------------------------------------------------------------------------
 # Go drivers
 
+_KEEP = re.compile(r"^(Test\w*|init|main|M|v[A-Z]\w*)$")
+
+
+def _driver_names(txt):
+    names = set()
+    for m in re.finditer(r"^func\s+(\w+)\s*\(", txt, re.M):
+        names.add(m.group(1))
+    for m in re.finditer(r"^(?:var|type|const)\s+(\w+)", txt, re.M):
+        names.add(m.group(1))
+    for blk in re.finditer(r"^(?:var|const)\s*\(\n(.*?)^\)", txt, re.M | re.S):
+        for m in re.finditer(r"^\t(\w+)(?:,\s*(\w+))*\s", blk.group(1), re.M):
+            for n in re.findall(r"\w+", m.group(0).split("=")[0].split(" ")[0] if False else m.group(0)):
+                pass
+        for line in blk.group(1).splitlines():
+            mm = re.match(r"^\t([\w, ]+?)\s*(?:=|\s[\w\[\]\*\.]+\s*(?:=|$))", line)
+            if mm:
+                for n in re.split(r"\s*,\s*", mm.group(1).strip()):
+                    if re.fullmatch(r"\w+", n):
+                        names.add(n)
+    return {n for n in names if not _KEEP.match(n) and n != "_"}
+
+
+def _prefix_driver_names(txt, names):
+    if not names:
+        return txt
+    pat = re.compile(r"(?<![\w.\"])(%s)\b" % "|".join(sorted(names, key=len, reverse=True)))
+
+    def fix_line(line):
+        # leave string literals alone (split on double quotes; the drivers do not use these names inside raw strings)
+        parts = line.split('"')
+        for i in range(0, len(parts), 2):
+            parts[i] = pat.sub(lambda m: "vd_" + m.group(1), parts[i])
+        return '"'.join(parts)
+    return "\n".join(fix_line(l) for l in txt.split("\n"))
+
+
 def build_driver(ctx, pkg, sources, tags=("verif",), race=False, name=None, helper=True, extra=None):
     """Compile the in-package driver(s) `sources` (paths under harness/) into a
     test binary of /repo/<pkg> using a build overlay: /repo is not touched."""
@@ -70,12 +106,19 @@ def build_driver(ctx, pkg, sources, tags=("verif",), race=False, name=None, help
     os.makedirs(d, exist_ok=True)
     replace = {}
     pkgname = None
+    allnames = set()
+    for src in sources:
+        allnames |= _driver_names(open(os.path.join(HARNESS, src)).read())
     for src in sources:
         sp = os.path.join(HARNESS, src)
         txt = open(sp).read()
         m = re.search(r"^package\s+(\w+)", txt, re.M)
         pkgname = m.group(1)
-        replace[os.path.join(REPO, pkg, "zz_verif_" + os.path.basename(src))] = sp
+        # in-package drivers share the package's name space: give every top-level identifier the driver declares a
+        # prefix that no repository code uses, so that a new identifier in the package cannot collide with the driver
+        gp = os.path.join(d, name + "_" + os.path.basename(src))
+        open(gp, "w").write(_prefix_driver_names(txt, allnames))
+        replace[os.path.join(REPO, pkg, "zz_verif_" + os.path.basename(src))] = gp
     if helper:
         h = open(os.path.join(HARNESS, "common", "vhelp.go.txt")).read().replace("package PKG", "package " + pkgname)
         hp = os.path.join(d, name + "_vhelp_test.go")
